@@ -57,7 +57,7 @@ META = {
               "AllowTrailing x sampled/mutated inputs are parsed by the real parser and by an independent reference parser; acceptance "
               "and the AST (field by field, incl. Token/[]Token fields and union member types) must agree. Exploration of a very large "
               "space: ~40k cases quick, millions thorough, with measured shares of abandoned attempts, commits at exactly k+1, typed literals.",
-        note=GRAM_NOTE + " One recorded known finding (F2) is excluded by signature."),
+        note=GRAM_NOTE + " No known finding is listed for this property (F2, recorded earlier, was repaired upstream)."),
     "C02": dict(
         engine="gram", design_ref="3/C02",
         technique="property test with trap-biased grammar generator; one-directional oracle from the reference derivation (rapid)",
@@ -86,14 +86,14 @@ META = {
         technique="differential fuzzing through a compile stage: generated definitions -> `participle gen lexer` -> go build -> runtime vs generated lexer; possessive-matcher oracle for the documented tolerance",
         level="Batches of generated rule sets of the documented class are turned into Go source by the generator binary built from /repo, compiled, "
               "and compared with the runtime lexer on thousands of inputs walked through the state machine: generator exit status, compilation, "
-              "Symbols(), (type, text, position) streams, elision, EOF, error positions. A difference is tolerated only when an independent possessive "
+              "Symbols(), (type, text, position) streams, elision, EOF, error positions, also with several lexers of one generated definition alive and drained in turns. A difference is tolerated only when an independent possessive "
               "matcher shows that no-backtracking matching of a tried rule differs from backtracking matching. Exploration (40 definitions x 150 inputs "
               "quick, ~1000 x 300 thorough).",
         note=LEX_NOTE + " Also trusts the ~150-line possessive matcher over regexp/syntax trees (lexgen/possessive.go) for the tolerance decision, "
              "and the Go toolchain for 'compiles'. The generated lexers are additionally checked with C04's validator and C07's oracle."),
     "C06": dict(
         engine="props", design_ref="3/C06",
-        technique="robustness fuzzing with validity-predicate oracle: mutated sample inputs of 18 ported example grammars + generated grammars (rapid), watchdog, crash journal, Trace-depth metamorphic relation",
+        technique="robustness fuzzing with validity-predicate oracle: mutated sample inputs of 18 ported example grammars and a harness-owned sealed-union grammar + generated grammars and recursive systems (rapid), watchdog, crash journal, Trace-depth metamorphic relation",
         level="Every Parse/ParseString/ParseBytes call on mutated, truncated, nested, very long flat, non-UTF-8 and empty inputs must return without "
               "panic or hang with (AST, nil) or a well-formed located participle.Error (filename, offset in bounds, line/column recomputed from the "
               "offset, Error() text, UnexpectedTokenError naming the token Parser.Lex shows there, nil AST iff lexing failed). Recursion depth read "
@@ -101,11 +101,11 @@ META = {
               "dropped tokens run under a 64 MiB stack limit with a crash journal. Exploration.",
         note="The example grammars are hand-ported copies (harness/fixtures) of /repo/_examples; panics raised by their own Parseable code and foreign "
              "errors are not judged. One known finding (F19, exponential backtracking of the sql example) is excluded by construction; generated "
-             "grammars are gated by the reference parser's step budget for the same reason. 'Hang' = a call exceeding the 20 s watchdog."),
+             "grammars are gated by the reference parser's step budget for the same reason. 'Hang' = a call that has not returned after 20 s of CPU time of the checking process (200 s of wall time for a blocked call); megabyte inputs get 6x that."),
     "C09": dict(
         engine="props", design_ref="3/C09",
         technique="generated concurrent workloads compared with fresh-instance results, run under the Go race detector (rapid)",
-        level="Workloads of 2-16 goroutines (after a sequential history) call ParseString/ParseBytes/Parse/Lex/String/LexString on shared generated "
+        level="Workloads of 2-16 goroutines (after a sequential history) call ParseString (also with AllowTrailing or Trace)/ParseBytes/Parse/Lex/String/LexString on shared generated "
               "parsers, back-reference definitions, a two-mapper parser, the package-level ebnf parser and ported example parsers; every result, "
               "compared after all goroutines finished, must deep-equal the result of the same call on a fresh instance, and the race detector must "
               "stay silent. Exploration of workloads; interleavings are whatever the Go scheduler produces.",
@@ -116,7 +116,8 @@ META = {
         engine="lexgen", design_ref="3/C07",
         technique="property test: generated hostile rule sets/inputs/call histories with a no-panic, progress and sticky-EOF oracle + watchdog (rapid)",
         level="Rule sets in which Pop/Return are reachable in the initial state, groups may not participate, back-references may name missing groups "
-              "x hostile inputs x extra Next calls after EOF/error; each call runs under a recover and a 20 s watchdog. Exploration.",
+              "x hostile inputs x extra Next calls after EOF/error; each call runs under a recover and a 20 s watchdog. Lexers generated by "
+              "`participle gen lexer` from definitions of its supported class get the same oracle in a compile stage (25 / 150 definitions). Exploration.",
         note=LEX_NOTE + " 'Terminates' is judged with a 20 s per-call watchdog (typical call: microseconds)."),
     "C14": dict(
         engine="srcgen", design_ref="3/C14",
@@ -133,8 +134,9 @@ META = {
         technique="differential property test across entry points and observational options (rapid)",
         level="For ported example parsers and generated parsers (default, stateful, mapped lexers) and valid/invalid inputs: Parse(reader) incl. one-byte "
               "and multi-part readers, ParseString, ParseBytes, ParseFromLexer over the parser's own stream must give deeply equal ASTs and identical "
-              "error texts; Parser.Lex must equal the drained definition; Lex/LexString/LexBytes must agree; Trace must not change the result; with "
-              "AllowTrailing the caller's lexer must end at the first token the reference parser did not consume. Exploration. Generated lexers' entry "
+              "error texts (also with AllowTrailing, and with a reader that has a Name()); Parser.Lex must equal the drained definition; Lex/LexString/LexBytes must agree, also "
+              "with several lexers of one definition (the parser's, generated multi-state rule sets) alive and drained in turns; Trace must not change the result; with "
+              "AllowTrailing the caller's lexer must end at the first token the reference parser did not consume (fixtures: the consumed prefix must parse alone to the same AST). Exploration. Generated lexers' entry "
               "points are compared in the C05 compile stage.",
         note=GRAM_NOTE),
     "C16": dict(
@@ -151,8 +153,7 @@ META = {
               "multi-token captures, an alternative that can accept the text as a string) x generated texts (width boundaries +-1 in four bases, "
               "underscores, exponents, hex floats, Inf/NaN, junk) compared with strconv.ParseInt/ParseUint/ParseFloat; failures must be located "
               "at the first captured token and name the conversion. Exploration.",
-        note="Trusts strconv as the meaning of the conversion (as the property states) and rapid. Known finding F2 (error positioned at a preceding "
-             "elided token) is excluded by signature."),
+        note="Trusts strconv as the meaning of the conversion (as the property states) and rapid. No known finding is listed (F2 was repaired upstream)."),
     "C08": dict(
         engine="gram", design_ref="3/C08",
         technique="property test against an independent left-recursion analysis (nullability fix-point + left-edge reachability) on generated recursive systems (rapid)",
@@ -167,31 +168,31 @@ META = {
         level="Generated strings in every Go quoting style (incl. hand-assembled and corrupted escapes) are lexed by the default and a permissive "
               "stateful lexer under 1-3 mapper options; the mapped stream must equal the unmapped one except that selected literal tokens hold "
               "strconv.Unquote's value / selected tokens are upper-cased, positions untouched, a recording Map sees each selected non-EOF token once "
-              "in order (elided ones included), and rejected escapes give an error located at the token. Exploration.",
+              "in order (elided ones included), rejected escapes give an error located at the token, and ParseString/ParseBytes/Parse capture the mapped values. Exploration.",
         note="Trusts strconv.Unquote as the meaning of 'unquoted value' (as the property states). Unquote applied to tokens that are not Go literals "
              "(e.g. single-quoted multi-character strings) is outside the statement and is skipped."),
     "C19": dict(
         engine="props", design_ref="3/C19",
         technique="grammar-aware fuzzing of struct tags and field types with a reference recogniser of the tag syntax (rapid)",
         level="Struct types assembled with reflect.StructOf from a pool of 28 field types plus static odd types, tagged with token soup, single-token "
-              "edits of valid grammars, raw byte soup and valid generated grammars, in both tag forms: Build must return within the watchdog without "
+              "edits of valid grammars, a stray token opening a later field, raw byte soup, valid generated grammars (incl. by-value embedding 1-4 deep) and recursive systems, in both tag forms: Build must return within the watchdog without "
               "panicking, return exactly one of parser/error, build what the reference recogniser classifies as valid and reject the listed malformed "
               "shapes. A fatal crash (stack overflow) is attributed through a case journal. Exploration.",
         note="Trusts the harness's ~150-line recogniser of the documented tag syntax; it only claims 'must build' for tags without @@ whose capture "
-             "targets are simple types, and 'must be rejected' for the malformed shapes the statement lists; everything else only has to terminate without panic."),
+             "targets are simple types, and 'must be rejected' for the malformed shapes the statement lists and for any tag that names an unknown token type anywhere; everything else only has to terminate without panic."),
     "C10": dict(
         engine="gram", design_ref="3/C10",
         technique="metamorphic property test: re-spacing / re-commenting of generated inputs (rapid)",
         level="Each generated token sequence is rendered to two texts differing only in elided tokens; after confirming via Parser.Lex that the "
               "non-elided sequences are equal, acceptance and all captured fields must be equal. Grammars that name elided types are checked "
               "against the reference parser's PeekAny rule. Exploration over grammars x inputs x renderings x elision sets x lookahead.",
-        note=GRAM_NOTE + " Known finding F2 (Token fields) excluded by signature."),
+        note=GRAM_NOTE + " No known finding is listed (F2 was repaired upstream)."),
     "C11": dict(
         engine="gram", design_ref="3/C11",
         technique="property test: model-free token-run invariants + exact values from the reference derivation (rapid)",
         level="For accepted parses of generated grammars whose nodes carry Pos/EndPos/Tokens (plain, embedded, convertible type) the check "
               "verifies run contiguity, containment, sibling disjointness/order, root end, Pos<=EndPos and the exact Tokens/Pos/EndPos values "
-              "computed from the reference derivation. Exploration.",
+              "computed from the reference derivation; the AST must still read the same after the parser has parsed two other inputs. Exploration.",
         note=GRAM_NOTE + " Pos/EndPos are only judged for grammars that do not name elided types (the statement's domain)."),
     "C13": dict(
         engine="gram", design_ref="3/C13",
